@@ -5,11 +5,11 @@ Import ListNotations.
 
 (* ------------------------------------------------------------------ observations *)
 
-Inductive pkind : Type := KNormal | KDissolve | KPrecip.
+Inductive pkind : Type := KNormal | KDissolve | KPrecip | KForce.
 
 (* one non-gas mineral of an EQUILIBRIUM_PHASES assemblage after the reaction step *)
 Record pp_obs : Type := PP {
-  pp_kind : pkind;       (* none (also force_equality) / dissolve_only / precipitate_only *)
+  pp_kind : pkind;       (* none / dissolve_only / precipitate_only / force_equality *)
   pp_target : Q;         (* requested saturation index *)
   pp_init : Q;           (* amount in the definition (mol) *)
   pp_moles : Q;          (* amount after the step, EQUI("name") *)
@@ -47,6 +47,7 @@ Section Valid.
     | KNormal => (0 < moles -> Rabs (si - target) <= tolSI) /\ (~ 0 < moles -> moles = 0 /\ si <= target + tolSI)
     | KDissolve => moles <= init /\ (0 < moles -> target - tolSI <= si) /\ (moles < init -> si <= target + tolSI)
     | KPrecip => init <= moles /\ si <= target + tolSI /\ (init < moles -> target - tolSI <= si)
+    | KForce => Rabs (si - target) <= tolSI     (* -force_equality: the target is reached (or the run ends with an error) *)
     end.
 
   Definition site_validR (defined found : R) : Prop := Rabs (found - defined) <= tolSite * defined.
@@ -125,6 +126,7 @@ Definition pp_ok (p : pp_obs) : bool :=
   | KDissolve => Qle_bool m i && (if Qlt_bool 0 m then Qle_bool (t - qtolSI) s else true)
                  && (if Qlt_bool m i then Qle_bool s (t + qtolSI) else true)
   | KPrecip => Qle_bool i m && Qle_bool s (t + qtolSI) && (if Qlt_bool i m then Qle_bool (t - qtolSI) s else true)
+  | KForce => Qle_bool (s - t) qtolSI && Qle_bool (t - s) qtolSI
   end.
 
 Definition site_ok (s : site_obs) : bool :=
